@@ -385,7 +385,7 @@ func (fv *FnV) contractCall(st *State, call *ast.CallExpr, key string, fd *ast.F
 			if fv.fc != nil && fv.fc.Panics != nil && len(fv.frames) == 1 {
 				mine := fv.evalClauseEntry(st, fv.fc.Panics)
 				fv.oblige(st, fmt.Sprintf("call@%s.panics-covered", short), "", fmt.Sprintf("(=> %s %s)", p, mine), call, fc.Panics)
-			} else {
+			} else if fv.fc == nil || !fv.fc.MayPanic || len(fv.frames) != 1 {
 				fv.oblige(st, fmt.Sprintf("call@%s.nopanic", short), "", not(p), call, fc.Panics)
 			}
 			st.assume(not(p))
